@@ -64,7 +64,15 @@ fn render(v: u64, mode: u8, f: &mut fmt::Formatter<'_>) -> fmt::Result {
     match chunks {
         Some(cs) => {
             for c in &cs {
-                f.write_str(c)?;
+                // a chunk marked 'c' in the ops file is one character handed over with write_char
+                match c.strip_prefix('\u{1}') {
+                    Some(ch) => {
+                        for x in ch.chars() {
+                            fmt::Write::write_char(f, x)?;
+                        }
+                    }
+                    None => f.write_str(c)?,
+                }
             }
             Ok(())
         }
@@ -265,6 +273,102 @@ fn pattern<I: DoubleEndedIterator<Item = NodeId>>(pat: &str, mk: impl FnOnce() -
     match r {
         Ok(v) => format!("d {}", v.join(",")),
         Err(_) => "d panic".into(),
+    }
+}
+
+/// Every way of consuming an iterator must agree with repeated `next()` (the documented sequence): a clone
+/// taken mid-way, `fold`, `for_each`, `count`, `last` (internal iteration may be overridden separately).
+fn chk_iter<I>(name: &str, n: usize, mk: impl Fn() -> I, bad: &mut Vec<String>)
+where
+    I: Iterator + Clone,
+    I::Item: PartialEq + Clone,
+{
+    let full: Vec<I::Item> = mk().take(n).collect();
+    if full.len() >= n {
+        return; // does not end: reported by qi
+    }
+    for j in 0..=full.len().min(3) {
+        let mut it = mk();
+        for _ in 0..j {
+            it.next();
+        }
+        let rest = &full[j..];
+        let via_clone: Vec<I::Item> = it.clone().take(n).collect();
+        if via_clone != rest {
+            bad.push(format!("{}:clone-after-{}-pulls", name, j));
+        }
+        let mut via_fold = Vec::new();
+        it.clone().fold((), |_, v| via_fold.push(v));
+        if via_fold != rest {
+            bad.push(format!("{}:fold-after-{}-pulls", name, j));
+        }
+        if it.clone().count() != rest.len() {
+            bad.push(format!("{}:count-after-{}-pulls", name, j));
+        }
+        if it.clone().last() != rest.last().cloned() {
+            bad.push(format!("{}:last-after-{}-pulls", name, j));
+        }
+        let mut via_for_each = Vec::new();
+        it.for_each(|v| via_for_each.push(v));
+        if via_for_each != rest {
+            bad.push(format!("{}:for_each-after-{}-pulls", name, j));
+        }
+    }
+}
+
+/// The same for the double-ended iterators, after `j` front pulls and `k` back pulls, plus `rev()` / `rfold`.
+fn chk_de<I>(name: &str, n: usize, mk: impl Fn() -> I, bad: &mut Vec<String>)
+where
+    I: DoubleEndedIterator + Clone,
+    I::Item: PartialEq + Clone,
+{
+    let full: Vec<I::Item> = mk().take(n).collect();
+    if full.len() >= n {
+        return;
+    }
+    for j in 0..=full.len().min(2) {
+        for k in 0..=(full.len() - j).min(2) {
+            let mut it = mk();
+            for _ in 0..j {
+                it.next();
+            }
+            for _ in 0..k {
+                it.next_back();
+            }
+            let rest = &full[j..full.len() - k];
+            let tag = format!("{}f{}b", j, k);
+            let via_clone: Vec<I::Item> = it.clone().take(n).collect();
+            if via_clone != rest {
+                bad.push(format!("{}:clone-after-{}", name, tag));
+            }
+            let mut via_fold = Vec::new();
+            it.clone().fold((), |_, v| via_fold.push(v));
+            if via_fold != rest {
+                bad.push(format!("{}:fold-after-{}", name, tag));
+            }
+            let mut via_rfold = Vec::new();
+            it.clone().rfold((), |_, v| via_rfold.push(v));
+            via_rfold.reverse();
+            if via_rfold != rest {
+                bad.push(format!("{}:rfold-after-{}", name, tag));
+            }
+            let mut via_rev: Vec<I::Item> = it.clone().rev().take(n).collect();
+            via_rev.reverse();
+            if via_rev != rest {
+                bad.push(format!("{}:rev-after-{}", name, tag));
+            }
+            if it.clone().count() != rest.len() {
+                bad.push(format!("{}:count-after-{}", name, tag));
+            }
+            if it.clone().last() != rest.last().cloned() {
+                bad.push(format!("{}:last-after-{}", name, tag));
+            }
+            let mut via_for_each = Vec::new();
+            it.for_each(|v| via_for_each.push(v));
+            if via_for_each != rest {
+                bad.push(format!("{}:for_each-after-{}", name, tag));
+            }
+        }
     }
 }
 
@@ -472,8 +576,13 @@ impl Exec {
                 } else {
                     let mut cs = Vec::new();
                     for c in spec.split(',') {
-                        let b = unhex(c).ok_or(E::BadCmd)?;
-                        cs.push(String::from_utf8(b).map_err(|_| E::BadCmd)?);
+                        let (is_char, hexpart) = match c.strip_prefix('w') {
+                            Some(h) => (true, h),
+                            None => (false, c),
+                        };
+                        let b = unhex(hexpart).ok_or(E::BadCmd)?;
+                        let txt = String::from_utf8(b).map_err(|_| E::BadCmd)?;
+                        cs.push(if is_char { format!("\u{1}{}", txt) } else { txt });
                     }
                     cs
                 };
@@ -607,6 +716,30 @@ impl Exec {
                     walk(n, NodeEdge::Start(x), NodeEdge::End(x), |e| e.next_traverse(ar)),
                     walk(n, NodeEdge::End(x), NodeEdge::Start(x), |e| e.prev_traverse(ar)),
                 )
+            }
+            "qx" => {
+                let x = self.h(t, 1)?;
+                let ar = &self.cur.arena;
+                let n = 4 * ar.count() + 8;
+                let r = guard(|| {
+                    let mut bad = Vec::new();
+                    chk_iter("anc", n, || x.ancestors(ar), &mut bad);
+                    chk_iter("pred", n, || x.predecessors(ar), &mut bad);
+                    #[allow(deprecated)]
+                    chk_iter("rch", n, || x.reverse_children(ar), &mut bad);
+                    chk_iter("desc", n, || x.descendants(ar), &mut bad);
+                    chk_iter("trav", n, || x.traverse(ar), &mut bad);
+                    chk_iter("rtrav", n, || x.reverse_traverse(ar), &mut bad);
+                    chk_de("ch", n, || x.children(ar), &mut bad);
+                    chk_de("prec", n, || x.preceding_siblings(ar), &mut bad);
+                    chk_de("foll", n, || x.following_siblings(ar), &mut bad);
+                    bad
+                });
+                match r {
+                    Ok(b) if b.is_empty() => "y ok".into(),
+                    Ok(b) => format!("y bad {}", b.join(";")),
+                    Err(_) => "y panic".into(),
+                }
             }
             "qd" => {
                 let x = self.h(t, 1)?;
